@@ -285,8 +285,10 @@ Reg ==
   /\ LET o == Head1("R") IN
        /\ active' = [x \in DOMAIN active \cup {o.id} |-> IF x = o.id THEN o.i ELSE active[x]]
        /\ prog' = [prog EXCEPT !["R"] = Tail(prog["R"]), ![o.i] = <<O("start"), O("call")>>]
+       \* (observation only: an entry of a registered operation was overwritten)
+       /\ w' = (IF o.id \in DOMAIN active THEN [w EXCEPT !.devs = w.devs \cup {"dupreg"}] ELSE w)
        /\ A("Reg", o.id, o.i, 0)
-  /\ UNCHANGED <<w, c, viol, inbox, nsent, cgone, sub, mu, closed, connClosed, ccancel, srvCancelled, runCancelled,
+  /\ UNCHANGED <<c, viol, inbox, nsent, cgone, sub, mu, closed, connClosed, ccancel, srvCancelled, runCancelled,
                  reqCancelled, fnres, reason, ticks, recvPong, deadline>>
 
 \* stop: c.mu.Lock(); closer := c.active[id]; c.mu.Unlock()  ...
@@ -506,7 +508,7 @@ StopCancelsI == \A i \in AllInsts : (StopSeen(i) /\ (\A n \in 1..Len(inbox) : in
                                       /\ ~At("R", "reg")) => Cancelled(i)
 
 \* the same, restricted to behaviours in which no two operations of one id ever overlapped
-StopCancelsNoDup == "dup" \in w.devs \/ StopCancelsI
+StopCancelsNoDup == "dupreg" \in w.devs \/ StopCancelsI
 
 \* ------------------------------------------------------------ edge export --
 Proj ==
